@@ -7,10 +7,14 @@ from vmon.refs import b58 as RB, bech32 as R32
 PROPERTY = "C11"
 LEVEL = "exploration"
 TECHNIQUE = "differential runtime monitor vs independent codec references; exhaustive substitution sweeps"
-RULE = ("cases: byte strings of every length 0..80 x leading-zero counts, alphabet/non-alphabet strings, Base58Check "
-        "checksum and single-character corruptions, (hrp, version, program) triples incl. every allowed and disallowed "
-        "length, mixed case, wrong checksum constant, bad padding, and all single + all/sampled double + sampled "
-        "triple/quadruple substitutions of valid addresses; strings from restricted alphabets (valid addresses with no cased "
+RULE = ("cases: byte strings of every length 0..80 x leading-zero counts (all-zero inputs included), every Base58 string of at most "
+        "two characters, alphabet/non-alphabet strings, Base58Check checksum byte / payload byte / single-character corruptions and "
+        "checksums cut short or missing, (hrp, version, program) triples incl. every version 0..16 (one evidence counter each), every "
+        "allowed and disallowed length, random human-readable parts over 33..126 of every length 1..83, total lengths 88..92 around "
+        "the 90-character limit, mixed case (single flipped letter, one part / only the checksum in the other case), wrong checksum "
+        "constant, bad padding, and all single + all/sampled double + sampled triple/quadruple substitutions of valid addresses "
+        "(quick tier: one Bech32 v0 and one Bech32m v1 address); every string the reference says is no Bech32 string also goes "
+        "through parse_bech32; strings from restricted alphabets (valid addresses with no cased "
         "character at all - digit/punctuation HRP, digit-only data part and checksum - found by search, and characters "
         "outside ASCII whose case folding lands in the charset); call histories on one process: the same request repeated "
         "and spelled differently (plain str / parseable_str, bytes / list program, explicit max_length=90, the same text "
@@ -31,7 +35,7 @@ def exhaustive(tier):
 
 
 def plan(tier, seed):
-    n_addr = 1 if tier == "quick" else 10
+    n_addr = 2 if tier == "quick" else 10      # quick: a v0 (Bech32) and a v1 (Bech32m) address, 6 parts each
     shards = [{"kind": "b58", "n": 6000 if tier == "quick" else 300000},
               {"kind": "b58check", "n": 1500 if tier == "quick" else 60000},
               {"kind": "bech32", "n": 8000 if tier == "quick" else 400000},
@@ -40,12 +44,12 @@ def plan(tier, seed):
     for p in range(2 if tier == "quick" else 6):
         shards.append({"kind": "hist", "n": 500 if tier == "quick" else 25000, "label": "hist%d" % p})
     # substitution sweeps: singles fully, doubles split over shards by first position
-    parts = 12
+    parts = 6 if tier == "quick" else 12
     for a in range(n_addr):
         for p in range(parts):
             shards.append({"kind": "subst", "addr": a, "part": p, "parts": parts,
-                           "double_budget": 9000 if tier == "quick" else None,
-                           "multi": 3000 if tier == "quick" else 20000})
+                           "double_budget": 8000 if tier == "quick" else None,
+                           "multi": 2600 if tier == "quick" else 20000})
     return shards
 
 
@@ -153,6 +157,8 @@ def _check_b58_bytes(data, rec, M):
     rec.ev("b2a_base58")
     st, got = observe(b58.b2a_base58, data)
     rec.case(("b58", data), nontrivial=len(data) > 0)
+    if data[:1] == b"\0":
+        rec.ev("b58.input_with_leading_zeros" if data.strip(b"\0") else "b58.input_all_zeros")
     if st != "ok" or got != exp:
         rec.violation("b58.encode_mismatch", {"data": data}, got, exp)
         return
@@ -189,6 +195,7 @@ def _check_b58_text(text, rec, M):
     rec.case(("b58text", text), nontrivial=len(text) > 0)
     st, got = observe(b58.a2b_base58, text)
     if exp is None:
+        rec.ev("b58.expected_reject.non_alphabet")
         if st == "ok":
             rec.violation("b58.accepts_non_alphabet", {"text": text}, got, "EncodingError")
         elif not isinstance(got, EncodingError):
@@ -197,6 +204,7 @@ def _check_b58_text(text, rec, M):
         if st != "ok" or got != exp:
             rec.violation("b58.decode_mismatch", {"text": text}, got, exp)
         else:
+            rec.ev("b58.text_decode_then_encode")
             st2, re = observe(b58.b2a_base58, got)
             if st2 != "ok" or re != text:
                 rec.violation("b58.encode_not_inverse_of_decode", {"text": text}, re, text)
@@ -206,6 +214,8 @@ def _check_b58_text(text, rec, M):
     valid = b58.is_hashed_base58_valid(text) if (st == "ok" or isinstance(got, EncodingError)) else None
     rec.ev("is_hashed_base58_valid")
     if expc is None:
+        if exp is not None:
+            rec.ev("b58check.expected_reject.wrong_checksum" if len(exp) >= 4 else "b58check.expected_reject.shorter_than_checksum")
         if st == "ok":
             rec.violation("b58check.accepts_bad_checksum", {"text": text}, got, "EncodingError")
         elif not isinstance(got, EncodingError):
@@ -243,6 +253,13 @@ def run_b58(spec, rec, M):
         data = b"\0" * z + bytes(rng.randrange(256) for _ in range(L - z))
         _check_b58_bytes(data, rec, M)
         done += 1
+    # every string of at most two alphabet characters (the short end of "all strings over the alphabet": these decode to
+    # fewer bytes than a checksum has)
+    _check_b58_text("", rec, M)
+    for a in RB.ALPHABET:
+        _check_b58_text(a, rec, M)
+        for b in RB.ALPHABET:
+            _check_b58_text(a + b, rec, M)
     # arbitrary text: alphabet-only, near-alphabet, non-ascii
     outside = "0OIl+/= _-\n\té€\U0001F600\x00"
     for i in range(n // 2):
@@ -257,10 +274,14 @@ def run_b58(spec, rec, M):
             chars = [chr(rng.randrange(1, 0x3000)) for _ in range(L)]
         _check_b58_text("".join(chars), rec, M)
     rec.sample({"op": "b2a_base58", "data": b"\0\0\x01\x02", "text": RB.encode(b"\0\0\x01\x02")})
+    rec.require("b2a_base58", "a2b_base58", "b2a_hashed_base58", "a2b_hashed_base58", "is_hashed_base58_valid",
+                "parse_b58_double_sha256", "b58.input_with_leading_zeros", "b58.input_all_zeros", "b58.text_decode_then_encode",
+                "b58.expected_reject.non_alphabet", "b58check.expected_reject.shorter_than_checksum")
 
 
 def run_b58check(spec, rec, M):
     rng = shard_rng(spec["seed"], PROPERTY, spec["tier"], spec["shard"])
+    rng2 = shard_rng(spec["seed"], PROPERTY, spec["tier"], spec["shard"], "cut")
     for i in range(spec["n"]):
         L = rng.choice([0, 1, 20, 21, 33, 34, 37, 78, rng.randrange(0, 90)])
         payload = bytes(rng.randrange(256) for _ in range(L))
@@ -282,6 +303,12 @@ def run_b58check(spec, rec, M):
         bad = bytearray(raw)
         bad[-1] ^= 0xff
         _check_b58_text(RB.encode(bytes(bad)), rec, M)
+        # checksum cut short / missing / followed by one more byte (short payloads: the string is shorter than a checksum)
+        if i % 4 == 0:
+            short = payload[:rng2.choice([0, 0, 1, 2, 3, len(payload)])]
+            full = short + RB.dsha(short)[:4]
+            for cut in (full[:-1], full[:-2], full[:-3], short, full + b"\0", b"\0" + full):
+                _check_b58_text(RB.encode(cut), rec, M)
         # single-character substitutions of the text (all positions for a few, sampled otherwise)
         positions = range(len(good)) if i % 40 == 0 else [rng.randrange(len(good))]
         for pos in positions:
@@ -290,6 +317,8 @@ def run_b58check(spec, rec, M):
                     _check_b58_text(good[:pos] + ch + good[pos + 1:], rec, M)
         if i < 2:
             rec.sample({"op": "a2b_hashed_base58", "valid": good, "corrupted": RB.encode(bytes(bad))})
+    rec.require("a2b_hashed_base58", "is_hashed_base58_valid", "b58check.expected_reject.wrong_checksum",
+                "b58check.expected_reject.shorter_than_checksum")
 
 
 HRPS = ["bc", "tb", "bcrt", "ltc", "a", "1", "11", "x1y", "tltc", "vtc", "abcdefghijklmnopqrst", "z9", "?", "~hrp~", "bc1"]
@@ -331,7 +360,15 @@ def _check_segwit_triple(hrp, ver, prog, rec, M):
         st, t = observe(ps.parse_bech32, arg)
         if st != "ok" or t is None or t[0] != hrp or t[1] != ver or t[2] != prog:
             rec.violation("parseable.bech32_mismatch" + sfx, {"text": exp}, t, [hrp, ver, prog])
+    rec.ev("bech32.roundtrip.witver_%d" % ver)
+    if len(exp) == 90:
+        rec.ev("bech32.roundtrip.length_90")
     return exp
+
+
+# rejection classes that get their own evidence counter (the first four are named by the property statement)
+REJECT_CLASSES = ("mixed_case", "wrong_constant", "bad_length", "bad_padding", "bad_version", "malformed", "other_hrp", "overlong",
+                  "unicode_fold", "caseless_corrupted")
 
 
 def _check_decode_text(hrp, text, rec, M, must_reject=False, why=""):
@@ -346,10 +383,12 @@ def _check_decode_text(hrp, text, rec, M, must_reject=False, why=""):
         rec.violation("oracle.bech32_reference_accepts_corruption", {"hrp": hrp, "text": text}, exp, None)
         return
     if exp is None:
+        if why in REJECT_CLASSES:
+            rec.ev("bech32.expected_reject." + why)
         if st != "ok":
             rec.violation("bech32.decode_raises", {"hrp": hrp, "text": text, "why": why}, got, [None, None])
         elif tuple(got) != (None, None):
-            rec.violation("bech32.accepts_invalid" + ("." + why if why else ""), {"hrp": hrp, "text": text}, got, [None, None])
+            rec.violation("bech32.accepts_invalid" + ("." + why if why else ""), {"hrp": hrp, "text": text, "why": why}, got, [None, None])
     else:
         if st != "ok" or got[0] != exp[0] or got[1] is None or bytes(got[1]) != exp[1]:
             rec.violation("bech32.decode_mismatch" + ("" if _has_case(text) else ".caseless_string"), {"hrp": hrp, "text": text}, got, exp)
@@ -360,9 +399,16 @@ def _check_decode_text(hrp, text, rec, M, must_reject=False, why=""):
         if st != "ok":
             rec.violation("bech32.raw_decode_raises", {"text": text}, rg, None)
         elif tuple(rg) != (None, None, None):
-            rec.violation("bech32.raw_accepts_invalid" + ("." + why if why else ""), {"text": text}, rg, None)
+            rec.violation("bech32.raw_accepts_invalid" + ("." + why if why else ""), {"hrp": hrp, "text": text, "why": why}, rg, None)
+        # the cached helper used by address parsing is a decoder too: not a Bech32 string -> nothing parsed (raising = rejecting)
+        rec.ev("parse_bech32.expected_reject")
+        st, t = observe(ps.parse_bech32, text)
+        if st == "ok" and t is not None:
+            rec.violation("parseable.bech32_accepts_invalid" + ("." + why if why else ""), {"hrp": hrp, "text": text, "why": why}, t, None)
     else:
         want = (rexp[0], rexp[1], 1 if rexp[2] == "bech32" else 2)
+        if st == "ok" and rg[1] is not None:
+            rg = (rg[0], list(rg[1]), rg[2])
         if st != "ok" or (rg[0], rg[1], rg[2]) != want:
             rec.violation("bech32.raw_decode_mismatch" + ("" if _has_case(text) else ".caseless_string"), {"hrp": hrp, "text": text}, rg, want)
             return
@@ -370,14 +416,44 @@ def _check_decode_text(hrp, text, rec, M, must_reject=False, why=""):
         rec.ev("bech32m.bech32_decode.max_length_90")
         for a, kw in (((text, 90), {}), ((text,), {"max_length": 90})):
             st, rg = observe(bm.bech32_decode, *a, **kw)
-            if st != "ok" or (rg[0], rg[1], rg[2]) != want:
+            if st != "ok" or rg[1] is None or (rg[0], list(rg[1]), rg[2]) != want:
                 rec.violation("bech32.raw_decode_mismatch.explicit_max_length", {"hrp": hrp, "text": text}, rg, want)
+
+
+HRP_CHARS = [chr(c) for c in range(33, 127) if not chr(c).isupper()]     # BIP173: 1..83 characters of 33..126; encoders emit lower case
+
+
+def _rand_hrp(rng, n):
+    return "".join(rng.choice(HRP_CHARS) for _ in range(n))
 
 
 def run_bech32(spec, rec, M):
     rng = shard_rng(spec["seed"], PROPERTY, spec["tier"], spec["shard"])
+    rng2 = shard_rng(spec["seed"], PROPERTY, spec["tier"], spec["shard"], "hrp")
     n = spec["n"]
     done = 0
+    # the 90-character limit of BIP173: addresses of total length 88..90 are valid and must round-trip, 91 and 92 are no
+    # Bech32 strings; human-readable parts of every length up to the maximum of 83
+    for ver, L in ((0, 20), (0, 32), (1, 32), (1, 40), (16, 2), (2, 3), (7, 11), (16, 40)):
+        fixed = 2 + (8 * L + 4) // 5 + 6
+        for total in (88, 89, 90, 91, 92):
+            for _ in range(3):
+                hrp = _rand_hrp(rng2, total - fixed)
+                prog = bytes(rng2.randrange(256) for _ in range(L))
+                if total <= 90:
+                    _check_segwit_triple(hrp, ver, prog, rec, M)
+                else:
+                    text = R32.raw_encode(hrp, [ver] + R32.to5(prog), "bech32" if ver == 0 else "bech32m")
+                    assert len(text) == total
+                    _check_decode_text(hrp, text, rec, M, why="overlong")
+    for hl in list(range(1, 86)):
+        for variant in ("bech32", "bech32m"):
+            hrp = _rand_hrp(rng2, hl)
+            k = rng2.choice([0, 0, 1, 90 - hl - 7]) if hl <= 83 else 0
+            text = R32.raw_encode(hrp, [rng2.randrange(32) for _ in range(max(0, k))], variant)
+            if len(text) == 90 and R32.raw_decode(text) is not None:
+                rec.ev("bech32.raw_valid.length_90")
+            _check_decode_text(hrp, text, rec, M, why="overlong" if len(text) > 90 else "hrp_length")
     # every version x every program length 0..42 (allowed and not) for a few HRPs
     for hrp in HRPS[:4] if spec["tier"] == "quick" else HRPS:
         for ver in range(-1, 19):
@@ -391,6 +467,8 @@ def run_bech32(spec, rec, M):
                 done += 1
     while done < n:
         hrp = rng.choice(HRPS)
+        if rng2.random() < 0.15:
+            hrp = _rand_hrp(rng2, rng2.choice([1, 2, 3, 4, 5, 8, 13, rng2.randrange(1, 40)]))
         ver = rng.choice([0, 0, 1, 1, 2, 15, 16, rng.randrange(17)])
         L = rng.choice(_segwit_lengths(ver))
         fill = rng.random()
@@ -401,6 +479,9 @@ def run_bech32(spec, rec, M):
         if done % 1000 == 0 and t:
             rec.sample({"op": "bech32m.encode", "hrp": hrp, "ver": ver, "prog": prog, "text": t})
         done += 1
+    rec.require("bech32m.encode", "bech32m.encode.list_program", "bech32m.decode", "bech32m.bech32_decode", "parse_bech32",
+                "bech32.roundtrip.length_90", "bech32.raw_valid.length_90", "bech32.expected_reject.overlong", "convertbits",
+                *["bech32.roundtrip.witver_%d" % v for v in range(17)])
     # convertbits both ways
     _, _, bm, _ = M
     for L in range(0, 70):
@@ -447,6 +528,12 @@ def run_bech32_reject(spec, rec, M):
             if i % 16 == 1:   # upper-case everything but one
                 up = good.upper()
                 _check_decode_text(hrp, up[:k] + up[k].lower() + up[k + 1:], rec, M, why="mixed_case")
+            if i % 16 == 9:   # each part in one case, the two parts in different cases; only the checksum in the other case
+                sep = len(hrp)
+                for t in (good[:sep].upper() + good[sep:], good[:sep] + good[sep:].upper(), good[:-6] + good[-6:].upper(),
+                          good[:-6].upper() + good[-6:]):
+                    if t.lower() != t and t.upper() != t:
+                        _check_decode_text(hrp, t, rec, M, why="mixed_case")
         elif cls == 2:    # invalid program length (valid checksum)
             L = rng.choice([0, 1, 41, 42, 45] if ver else [0, 1, 2, 19, 21, 31, 33, 40, 41])
             prog = bytes(rng.randrange(256) for _ in range(L))
@@ -487,6 +574,9 @@ def run_bech32_reject(spec, rec, M):
             _check_decode_text(hrp, text, rec, M, why="random_text")
         if i < 2:
             rec.sample({"op": "bech32m.decode", "class": cls, "hrp": hrp})
+    rec.require("bech32m.bech32_decode", "parse_bech32.expected_reject",
+                *["bech32.expected_reject." + w for w in ("mixed_case", "wrong_constant", "bad_length", "bad_padding", "bad_version",
+                                                          "malformed", "other_hrp")])
 
 
 CASELESS_LENGTHS = [L for L in range(2, 41) if L % 5 in (0, 1, 3)]      # other lengths need a last group that is no digit
@@ -498,6 +588,10 @@ def run_caseless(spec, rec, M):
     folding is a charset character."""
     rng = shard_rng(spec["seed"], PROPERTY, spec["tier"], spec["shard"])
     found = 0
+    for hrp, ver, ph, text in CASELESS_EXAMPLES:
+        t = _check_segwit_triple(hrp, ver, bytes.fromhex(ph), rec, M)
+        assert t is None or t == text
+        _check_decode_text(hrp, text, rec, M, why="caseless")
     for i in range(spec["n"]):
         hrp = CASELESS_HRPS[i % len(CASELESS_HRPS)] if i < 2 * len(CASELESS_HRPS) else rng.choice(CASELESS_HRPS)
         ver = rng.choice([5, 7, 10, 15])
@@ -538,7 +632,7 @@ def run_caseless(spec, rec, M):
                 assert not _has_case(text)
                 rec.ev("bech32.caseless_valid_string")
                 _check_decode_text(hrp, text, rec, M, why="caseless_raw")
-    rec.require("bech32.caseless_valid_string")
+    rec.require("bech32.caseless_valid_string", "bech32.expected_reject.caseless_corrupted")
     # characters outside ASCII that case-fold into ASCII letters (KELVIN SIGN -> k, LONG S -> S, DOTLESS I -> I)
     folds = {"k": "\u212a", "K": "\u212a", "s": "\u017f", "S": "\u017f"}
     for i in range(spec["n"]):
@@ -554,6 +648,7 @@ def run_caseless(spec, rec, M):
             if "i" not in hrp:
                 k = rng.randrange(len(spelled))
                 _check_decode_text(hrp, spelled[:k] + "\u0131" + spelled[k + 1:], rec, M, why="unicode_fold")
+    rec.require("bech32.unicode_fold", "bech32.expected_reject.unicode_fold")
 
 
 # -- call histories ---------------------------------------------------------------------------
@@ -837,7 +932,9 @@ def run_hist(spec, rec, M):
                 break
         if r == 0:
             rec.sample({"op": "call history", "steps": [{k: v for k, v in h.items() if k != "g"} for h in H[:4]]})
-    rec.require("hist.caller_mutation", "hist.bech32_decode", "hist.decode", "hist.encode", "hist.a2b_hashed_base58")
+    rec.require("hist.caller_mutation", *["hist." + op for op in (
+        "bech32_decode", "decode", "encode", "parse_bech32", "bech32_encode", "convertbits85", "convertbits58", "a2b_base58",
+        "a2b_hashed_base58", "is_hashed_base58_valid", "parse_b58_double_sha256", "b2a_base58", "b2a_hashed_base58")])
 
 
 def replay_history(case, rec, M):
@@ -887,8 +984,6 @@ def run_subst(spec, rec, M):
                 rec.violation("bech32.accepts_corrupted", {"hrp": hrp, "valid": good, "corrupted": text, "k": k}, r, [None, None])
             else:
                 rec.violation("oracle.bech32_reference_accepts_corruption", {"valid": good, "corrupted": text}, r, None)
-        if all(p > sep for p, _ in zip(range(0), ())) or True:
-            pass
 
     def judge_raw(text, k):
         rec.ev("subst_raw%d" % k)
@@ -945,6 +1040,9 @@ def run_subst(spec, rec, M):
         t = apply(subs)
         judge(t, k)
         judge_raw(t, k)
+    rec.require("subst1", "subst2", "subst3", "subst4", "subst_raw1", "subst_raw2", "subst_raw3", "subst_raw4")
+    rec.ev("subst.valid_string_is_%s" % ("bech32" if ver == 0 else "bech32m"))
+    rec.require("subst.valid_string_is_bech32", "subst.valid_string_is_bech32m")     # counters are merged over shards
     if part == 0:
         rec.sample({"op": "substitution sweep", "valid": good, "example_corruption": apply([(sep + 2, "q" if good[sep + 2] != "q" else "p")])})
 
